@@ -410,7 +410,7 @@ func (fv *FuncVerifier) checkFrameFiltered(st *State, label string, pos token.Po
 		if strings.HasPrefix(name, "LK_") && !fv.locksInFrame() {
 			continue
 		}
-		if strings.HasPrefix(name, "LKE_") || name == "GH_mepoch" {
+		if strings.HasPrefix(name, "LKE_") || name == "GH_mepoch" || name == "GH_walked" {
 			continue // ghost critical-section counters; interference epoch of the map model
 		}
 		if only != nil && !only(name) {
